@@ -11,6 +11,7 @@ import (
 	"github.com/markusressel/fan2go/internal/configuration"
 	"github.com/markusressel/fan2go/internal/control_loop"
 	"github.com/markusressel/fan2go/internal/controller"
+	"github.com/markusressel/fan2go/internal/util"
 )
 
 // C02 — a never-stop fan is never driven below its minimum, and the minimum never drops.
@@ -215,6 +216,81 @@ func c02FirstRunSpec(ctx *Ctx, spec RigSpec) {
 	ctx.Nontrivial(fmt.Sprintf("%s|%d|%d|%d", cls, cfgMin, spec.Levels, spec.Window))
 }
 
+// c02TransientCurveError: the real Run() loop of a never-stop hwmon fan whose curve (a PID curve, which reads its
+// sensor itself) fails for a moment. The value the fan had before fan2go started lies below the configured minimum.
+// Whatever fan2go does about the error - end regulation of the fan, or carry on - a run that continues must not have
+// written a value below the minimum to the fan.
+func c02TransientCurveError(ctx *Ctx) {
+	r := ctx.Rng
+	controller.VerifTimescale = 50
+	cfgMin := 80 + r.Intn(100)
+	spec := RigSpec{FanKind: "hwmon", SensorKind: "file", CurveKind: pick(r, "pid", "function-linear-pid"), HasEnable: r.Intn(2) == 0, HasRpm: true, NeverStop: true, OrigMode: pick(r, 1, 2), OrigPwm: r.Intn(cfgMin - 20),
+		Stored: true, Levels: 0, Window: 3, Theta: 1, Algo: "direct", TempMdeg: 45000, CfgMin: iptr(cfgMin)}
+	ctx.LogCase(map[string]interface{}{"class": "transient-curve-error:process-died", "spec": spec})
+	rig := newRig(ctx, spec)
+	defer rig.close()
+	cancel, done, wg := rig.start()
+	waitEvals := func(n int64, d time.Duration) bool {
+		for t0 := time.Now(); time.Since(t0) < d; time.Sleep(2 * time.Millisecond) {
+			if atomic.LoadInt64(&rig.Evals) >= n {
+				return true
+			}
+		}
+		return false
+	}
+	if !waitEvals(12, 60*time.Second) {
+		cancel()
+		<-done
+		wg.Wait()
+		ctx.Inconclusive("transient curve error: regulation did not begin: " + jsonStr(spec))
+		return
+	}
+	// the sensor cannot be read for a moment
+	d := driver
+	d.Mu.Lock()
+	saved := d.Rules
+	d.Rules = append(append([]*util.VerifRule{}, saved...), &util.VerifRule{Path: rig.SensPath, Op: "r", Action: "fail", Errno: "ENOENT"})
+	d.Mu.Unlock()
+	time.Sleep(60 * time.Millisecond)
+	d.Mu.Lock()
+	d.Rules = saved
+	d.Mu.Unlock()
+	// does the run go on afterwards?
+	evalsAfter := atomic.LoadInt64(&rig.Evals)
+	continued := false
+	select {
+	case res := <-done:
+		done <- res
+	case <-time.After(400 * time.Millisecond):
+		continued = atomic.LoadInt64(&rig.Evals) > evalsAfter+5
+	}
+	cancel()
+	select {
+	case <-done:
+	case <-time.After(60 * time.Second):
+		ctx.Inconclusive("transient curve error: controller did not stop: " + jsonStr(spec))
+		ctx.Abort = true
+		return
+	}
+	wg.Wait()
+	ctx.Eval(1)
+	if !continued {
+		ctx.Count("transient_curve_error_ended_regulation", 1)
+		ctx.Nontrivial("transient-curve-error|ended|" + spec.CurveKind)
+		return
+	}
+	// the run continued: every value written to the fan between the first regulation write and the stop request counts
+	ws := rig.pwmWrites()
+	for i, ev := range ws {
+		if i > 0 && i < len(ws)-2 && ev.Err == "" && ev.Val < cfgMin {
+			ctx.Violation("request-below-minimum:during-a-run-that-continues-after-a-curve-error", fmt.Sprintf("write no. %d of %d is %d, configured minimum %d (value before fan2go started: %d); %s", i, len(ws), ev.Val, cfgMin, spec.OrigPwm, jsonStr(spec)), spec)
+			return
+		}
+	}
+	ctx.Count("transient_curve_error_run_continued", 1)
+	ctx.Nontrivial("transient-curve-error|continued|" + spec.CurveKind)
+}
+
 func init() {
 	register("C02", func(ctx *Ctx) {
 		if ctx.Replay != "" {
@@ -234,6 +310,9 @@ func init() {
 			}
 			checkC02(ctx, &sc)
 			return
+		}
+		for i, nt := 0, ctx.N(16, 160); i < nt && !ctx.Abort; i++ {
+			c02TransientCurveError(ctx)
 		}
 		n := ctx.N(16000, 200000)
 		for i := 0; i < n; i++ {
